@@ -23,6 +23,44 @@ pub mod builder {
             ensures r.external_key is None, r.symbols.public_keys.keys@.len() == 0
         { unimplemented!() }
     }
+    // token/builder/biscuit.rs: how a new token gets its keys
+    pub use crate::builder_biscuit::BiscuitBuilder;
+}
+pub mod builder_biscuit {
+    use vstd::prelude::*;
+    use crate::builder::BlockBuilder;
+    use crate::token::{Biscuit, default_symbol_table};
+    use crate::datalog::SymbolTable;
+    use crate::crypto::{KeyPair, TokenNext};
+    use crate::rand;
+    use crate::rand::{CryptoRng, RngCore};
+    use crate::error;
+    use crate::spec::*;
+    use crate::tspec::*;
+    //@extract biscuit-auth/src/token/builder/biscuit.rs :: struct BiscuitBuilder
+    //@end
+    impl BiscuitBuilder {
+        //@extract biscuit-auth/src/token/builder/biscuit.rs :: impl BiscuitBuilder :: fn build
+        //@ ensures keys: r is Ok ==> chain_valid(r->Ok_0.container, kp_public(*root_key), false) && r->Ok_0.container.authority.next_key == kp_public(crate::crypto::rng_keypair::<rand::rngs::OsRng>(crate::builder::Algorithm::Ed25519, rand::rngs::OsRng))
+        //@ ensures root_key_id: r is Ok ==> r->Ok_0.root_key_id == self.root_key_id
+        //@end
+        //@extract biscuit-auth/src/token/builder/biscuit.rs :: impl BiscuitBuilder :: fn build_with_symbols
+        //@ requires empty: symbols.strings_view().len() == 0 && symbols.public_keys.keys@.len() == 0
+        //@ ensures keys: r is Ok ==> chain_valid(r->Ok_0.container, kp_public(*root_key), false) && r->Ok_0.container.authority.next_key == kp_public(crate::crypto::rng_keypair::<rand::rngs::OsRng>(crate::builder::Algorithm::Ed25519, rand::rngs::OsRng))
+        //@ ensures root_key_id: r is Ok ==> r->Ok_0.root_key_id == self.root_key_id
+        //@end
+        //@extract biscuit-auth/src/token/builder/biscuit.rs :: impl BiscuitBuilder :: fn build_with_rng
+        //@ requires empty: symbols.strings_view().len() == 0 && symbols.public_keys.keys@.len() == 0
+        //@ ensures keys: r is Ok ==> chain_valid(r->Ok_0.container, kp_public(*root), false) && r->Ok_0.container.authority.next_key == kp_public(crate::crypto::rng_keypair::<R>(crate::builder::Algorithm::Ed25519, *old(rng)))
+        //@ ensures root_key_id: r is Ok ==> r->Ok_0.root_key_id == self.root_key_id
+        //@end
+        //@extract biscuit-auth/src/token/builder/biscuit.rs :: impl BiscuitBuilder :: fn build_with_key_pair
+        //@ requires empty: symbols.strings_view().len() == 0 && symbols.public_keys.keys@.len() == 0
+        //@ requires wf: next.wf()
+        //@ ensures keys: r is Ok ==> chain_valid(r->Ok_0.container, kp_public(*root), false) && r->Ok_0.container.authority.next_key == kp_public(*next)
+        //@ ensures root_key_id: r is Ok ==> r->Ok_0.root_key_id == self.root_key_id
+        //@end
+    }
 }
 
 pub mod datalog {
@@ -98,6 +136,7 @@ pub mod token {
     use crate::builder::{BlockBuilder};
     pub use crate::builder;
     use crate::rand;
+    use crate::rand::{CryptoRng, RngCore};
     use crate::crypto::TokenNext;
     use self::public_keys::PublicKeys;
     use super::crypto::{KeyPair, PublicKey, Signature};
@@ -266,6 +305,7 @@ pub mod token {
 
     impl Biscuit {
         //@extract biscuit-auth/src/token/mod.rs :: impl Biscuit :: fn new_with_key_pair
+        //@ ensures next_key: r is Ok ==> r->Ok_0.container.authority.next_key == kp_public(*next_keypair) && r->Ok_0.container.proof == TokenNext::Secret(kp_private(*next_keypair))
         //@ requires empty: symbols.strings_view().len() == 0 && symbols.public_keys.keys@.len() == 0 && authority.symbols.public_keys.keys@.len() == 0
         //@ ensures inv: r is Ok ==> r->Ok_0.inv()
         //@ ghost before_tail :: proof { assert(symbols.strings_view() =~= authority.symbols@); assert(symbols.public_keys.keys@.len() == authority.public_keys@.len()); }
@@ -273,6 +313,13 @@ pub mod token {
         //@ ensures rep: r is Ok ==> r->Ok_0.rep()
         //@ ensures chain: r is Ok ==> chain_valid(r->Ok_0.container, kp_public(*root), false) && r->Ok_0.container.blocks@.len() == 0
         //@ ensures root_key_id: r is Ok ==> r->Ok_0.root_key_id == root_key_id && r->Ok_0.container.root_key_id == root_key_id
+        //@end
+        //@extract biscuit-auth/src/token/mod.rs :: impl Biscuit :: fn new_with_rng
+        //@ requires empty: symbols.strings_view().len() == 0 && symbols.public_keys.keys@.len() == 0 && authority.symbols.public_keys.keys@.len() == 0
+        //@ ensures next_key: r is Ok ==> r->Ok_0.container.authority.next_key == kp_public(crate::crypto::rng_keypair::<T>(builder::Algorithm::Ed25519, *old(rng))) && r->Ok_0.container.proof == TokenNext::Secret(kp_private(crate::crypto::rng_keypair::<T>(builder::Algorithm::Ed25519, *old(rng))))
+        //@ ensures chain: r is Ok ==> chain_valid(r->Ok_0.container, kp_public(*root), false) && r->Ok_0.container.blocks@.len() == 0
+        //@ ensures root_key_id: r is Ok ==> r->Ok_0.root_key_id == root_key_id && r->Ok_0.container.root_key_id == root_key_id
+        //@ ensures inv: r is Ok ==> r->Ok_0.inv()
         //@end
         //@extract biscuit-auth/src/token/mod.rs :: impl Biscuit :: fn from_with_symbols
         //@ requires empty: symbols.strings_view().len() == 0 && symbols.public_keys.keys@.len() == 0
@@ -304,12 +351,12 @@ pub mod token {
         //@end
         //@extract biscuit-auth/src/token/mod.rs :: impl Biscuit :: fn append
         //@ requires rep: self.rep()
-        //@ ensures fresh_key: r is Ok ==> last_block(r->Ok_0.container).next_key == kp_public(crate::crypto::rng_keypair(builder::Algorithm::Ed25519)) && r->Ok_0.container.proof == TokenNext::Secret(kp_private(crate::crypto::rng_keypair(builder::Algorithm::Ed25519)))
+        //@ ensures fresh_key: r is Ok ==> last_block(r->Ok_0.container).next_key == kp_public(crate::crypto::rng_keypair::<rand::rngs::OsRng>(builder::Algorithm::Ed25519, rand::rngs::OsRng)) && r->Ok_0.container.proof == TokenNext::Secret(kp_private(crate::crypto::rng_keypair::<rand::rngs::OsRng>(builder::Algorithm::Ed25519, rand::rngs::OsRng)))
         //@ ensures sealed: self.container.proof is Seal ==> r is Err
         //@end
         //@extract biscuit-auth/src/token/mod.rs :: impl Biscuit :: fn append_third_party
         //@ requires rep: self.rep()
-        //@ ensures fresh_key: r is Ok ==> last_block(r->Ok_0.container).next_key == kp_public(crate::crypto::rng_keypair(builder::Algorithm::Ed25519)) && r->Ok_0.container.proof == TokenNext::Secret(kp_private(crate::crypto::rng_keypair(builder::Algorithm::Ed25519)))
+        //@ ensures fresh_key: r is Ok ==> last_block(r->Ok_0.container).next_key == kp_public(crate::crypto::rng_keypair::<rand::rngs::OsRng>(builder::Algorithm::Ed25519, rand::rngs::OsRng)) && r->Ok_0.container.proof == TokenNext::Secret(kp_private(crate::crypto::rng_keypair::<rand::rngs::OsRng>(builder::Algorithm::Ed25519, rand::rngs::OsRng)))
         //@ ensures sealed: self.container.proof is Seal ==> r is Err
         //@end
         //@extract biscuit-auth/src/token/mod.rs :: impl Biscuit :: fn third_party_request
@@ -402,12 +449,12 @@ pub mod token {
             //@end
             //@extract biscuit-auth/src/token/unverified.rs :: impl UnverifiedBiscuit :: fn append
             //@ requires rep: self.rep()
-            //@ ensures fresh_key: r is Ok ==> last_block(r->Ok_0.container).next_key == kp_public(crate::crypto::rng_keypair(crate::builder::Algorithm::Ed25519)) && r->Ok_0.container.proof == TokenNext::Secret(kp_private(crate::crypto::rng_keypair(crate::builder::Algorithm::Ed25519)))
+            //@ ensures fresh_key: r is Ok ==> last_block(r->Ok_0.container).next_key == kp_public(crate::crypto::rng_keypair::<rand::rngs::OsRng>(crate::builder::Algorithm::Ed25519, rand::rngs::OsRng)) && r->Ok_0.container.proof == TokenNext::Secret(kp_private(crate::crypto::rng_keypair::<rand::rngs::OsRng>(crate::builder::Algorithm::Ed25519, rand::rngs::OsRng)))
             //@ ensures sealed: self.container.proof is Seal ==> r is Err
             //@end
             //@extract biscuit-auth/src/token/unverified.rs :: impl UnverifiedBiscuit :: fn append_third_party
             //@ requires rep: self.rep()
-            //@ ensures fresh_key: r is Ok ==> last_block(r->Ok_0.container).next_key == kp_public(crate::crypto::rng_keypair(crate::builder::Algorithm::Ed25519)) && r->Ok_0.container.proof == TokenNext::Secret(kp_private(crate::crypto::rng_keypair(crate::builder::Algorithm::Ed25519)))
+            //@ ensures fresh_key: r is Ok ==> last_block(r->Ok_0.container).next_key == kp_public(crate::crypto::rng_keypair::<rand::rngs::OsRng>(crate::builder::Algorithm::Ed25519, rand::rngs::OsRng)) && r->Ok_0.container.proof == TokenNext::Secret(kp_private(crate::crypto::rng_keypair::<rand::rngs::OsRng>(crate::builder::Algorithm::Ed25519, rand::rngs::OsRng)))
             //@ ensures sealed: self.container.proof is Seal ==> r is Err
             //@end
             //@extract biscuit-auth/src/token/unverified.rs :: impl UnverifiedBiscuit :: fn root_key_id
@@ -666,3 +713,5 @@ pub mod tspec {
 //@canary tables-authority-keys :: format::SerializedBiscuit::extract_blocks :: for pk in &authority.public_keys { ==>> for pk in &authority.public_keys[0..0] {
 //@canary append-key-not-from-rng :: token::Biscuit::append :: KeyPair::new_with_rng(builder::Algorithm::Ed25519, ==>> KeyPair::new_with_rng(builder::Algorithm::Secp256r1,
 //@canary unverified-append-third-party-key :: token::unverified::UnverifiedBiscuit::append_third_party :: self.append_third_party_with_keypair(slice, next_keypair) ==>> self.append_third_party_with_keypair(slice, KeyPair::new_with_rng(super::builder::Algorithm::Secp256r1, &mut rand::rngs::OsRng))
+//@canary authority-next-key-is-root :: token::Biscuit::new_with_rng :: &KeyPair::new_with_rng(builder::Algorithm::Ed25519, rng), ==>> root,
+//@canary builder-keys-swapped :: token::builder::biscuit::BiscuitBuilder::build_with_key_pair :: Biscuit::new_with_key_pair(self.root_key_id, root, next, symbols, authority_block) ==>> Biscuit::new_with_key_pair(self.root_key_id, next, root, symbols, authority_block)
